@@ -125,6 +125,16 @@ def run(ctx):
                     ok = True
                 if rel[0] == '<' and re.search(r'len\(self\.epoch_data\)', rel[2]) and rel[1] == 'max_epoch_retention':
                     ok = True
+        # the same trimming written without a loop: drop the `len - limit` oldest at once (`drain(..len.saturating_sub(limit))`,
+        # `drain(..len - limit)` under a `len > limit` test); the number dropped must be that difference and the end must be the front
+        from ..core.origins import Origins as _O
+        o_ = _O(body)
+        for bi, t in body.calls_named(r'VecDeque::drain$'):
+            rng = o_.arg_str(t, 1)
+            r.site('trim_epochs drains %s' % rng[:90])
+            if re.search(r'RangeTo\{end: (usize::)?saturating_sub\((VecDeque::)?len\(self\.epoch_data\), max_epoch_retention\)\}', rng) or \
+               (ok and re.search(r'RangeTo\{end: \(+(VecDeque::)?len\(self\.epoch_data\) SubWithOverflow max_epoch_retention\)', rng)):
+                return r
         if not ok:
             r.bad('trim-condition', 'trim_epochs no longer pops while len(epoch_data) > max_epoch_retention')
         pops = body.calls_named(r'VecDeque::pop_front$')
